@@ -38,7 +38,15 @@ def subst_poly(p, subst):
         return p
     out = {}
     for m, c in p.items():
-        m2 = tuple(sorted(substitute(a, subst) for a in m))
+        atoms = []
+        for a in m:
+            a2 = substitute(a, subst)
+            a3 = re.sub(r'^\((?:unsigned |signed )?\w[\w ]*\)(?=-?\d+$)', '', a2)
+            if re.match(r'^-?\d+$', a3):
+                c = c * int(a3)      # an argument that is a constant at this call site
+            else:
+                atoms.append(a2)
+        m2 = tuple(sorted(atoms))
         out[m2] = out.get(m2, 0) + c
     return {k: v for k, v in out.items() if v}
 
